@@ -8,6 +8,12 @@ C={
   "Loopback writes with TCP_NODELAY stand in for TCP segmentation; trusts the harness's strict RESP parser.","runtime monitoring: metamorphic cut-independence + strict framing monitor + byte round-trip oracle over live TCP"),
 "C02":("exploration","Random string/counter command sequences (boundary offsets around the current length, boundary and near integers, floats, every SET option subset in any order/case, all prior key types) run against the live emulator in lock step with an executable reference model: every reply, the full observable state after every step and inertness of failed commands are compared. Sampling of sequences.",
   MODEL_NOTE,"runtime monitoring: differential testing against an executable reference model (reply + state + inertness oracle per step)"),
+"C03":("exploration","Random list command sequences (indexes/counts/ranks in [-len-2,len+2] and extremes, duplicates, source = destination moves, LMPOP over several keys, LPOS option combinations, wrong-typed and missing keys) run against the live emulator in lock step with the reference model: replies, element order of every list after every step, key removal when empty and inertness of failures are compared. Sampling of sequences.",
+  MODEL_NOTE,"runtime monitoring: differential testing against an executable reference model (reply + state + inertness oracle per step)"),
+"C04":("exploration","Random hash command sequences, the exhaustive HINCRBY old-value x increment sign table (12 x 9 incl. +-2^63 boundaries and non-integers) and large hashes grown over several table doublings, shrunk and regrown run in lock step with the reference model: replies (HRANDFIELD by predicate: existing, distinct, exact count), the whole field/value mapping after every step and inertness of failures are compared.",
+  MODEL_NOTE+" Hash sizes are capped at 800 fields (the emulator's collision-free table is quadratic).","runtime monitoring: differential testing against an executable reference model (reply + state + inertness oracle per step)"),
+"C05":("exploration","Random set command sequences over a 6-member universe (operands drawn with replacement incl. missing and wrong-typed ones, STORE destination among the operands half of the time, SMOVE with source = destination, all SRANDMEMBER counts and SINTERCARD limits) run in lock step with the reference model: replies equal the exact mathematical result, every operand and destination is re-read after every step, failures are inert.",
+  MODEL_NOTE,"runtime monitoring: differential testing against an executable reference model (reply + state + inertness oracle per step)"),
 "C13":("exploration","Hostile byte strings, generated commands (every command token x arity 0..7 x boundary arguments x key types) and MULTI sequences are sent to the live emulator over TCP; exit status, a canary connection, strict reply framing and a sentinel ECHO decide crash / stall / unanswered / mis-framed. Sampling, not enumeration.",
   "Trusts the harness's strict RESP parser, the 3-4 s watchdogs on a loaded machine, and the 12 GiB address-space limit as the definition of 'resource exhaustion'.","runtime monitoring: liveness/canary monitor + framing monitor over generated hostile inputs (child process per shard)"),
 }
